@@ -29,6 +29,14 @@ func init() {
 				tags, nt := histTags(h)
 				emit(Case{Op: h.String(), Tags: tags, NonTrivial: nt})
 			}
+			// tracks whose chunk body crosses 2^16 bytes (thorough: also a multiple of it and 2^17)
+			bodies := []int{65530, 70000}
+			if tier == "thorough" {
+				bodies = []int{65400, 65530, 65600, 70000, 131072, 200000}
+			}
+			for _, b := range bodies {
+				emit(Case{Op: bigTrackHistory(r, b).String(), Tags: []string{"chunk-body>=2^16"}, NonTrivial: true})
+			}
 			// VLQ: every boundary +-2 of the 7-bit groups, then samples of the full 32-bit range
 			for _, b := range []uint64{0, 1 << 7, 1 << 14, 1 << 21, 1 << 28, 1 << 31, 1 << 32} {
 				for d := int64(-3); d <= 3; d++ {
